@@ -71,6 +71,28 @@ static QByteArray env_gunzip(const QByteArray &gz, bool *ok)
 #endif
 }
 
+// reference gzip writer for pre-state files (model build: the framing contract of the qCompress stub; real build: zlib)
+static QByteArray ref_gzip(const QByteArray &raw)
+{
+#ifdef VF_REAL
+    z_stream s; memset(&s, 0, sizeof s);
+    deflateInit2(&s, 5, Z_DEFLATED, 16 + MAX_WBITS, 8, Z_DEFAULT_STRATEGY);
+    QByteArray out(1 << 12, 0);
+    s.next_in = (Bytef *)raw.constData(); s.avail_in = raw.size(); s.next_out = (Bytef *)out.data(); s.avail_out = out.size();
+    deflate(&s, Z_FINISH); int n = int(s.total_out); deflateEnd(&s);
+    out.truncate(n); return out;
+#else
+    static const unsigned char hdr[10] = { 0x1f, 0x8b, 0x08, 0x00, 0, 0, 0, 0, 0x00, 0x03 };
+    QByteArray g; g = QByteArray("");
+    for (int i = 0; i < 10; ++i) g.append(char(hdr[i]));
+    g.append(char(0x01)); g.append(raw);
+    unsigned crc = ref_crc32(raw), n = unsigned(raw.size());
+    for (int i = 0; i < 4; ++i) g.append(char((crc >> (8 * i)) & 0xff));
+    for (int i = 0; i < 4; ++i) g.append(char((n >> (8 * i)) & 0xff));
+    return g;
+#endif
+}
+
 // decoded view of one log file: the records it holds (indices into g_rec), in order
 struct FileView { bool ours; bool active; bool gz; bool wellFormed; int first, last, count; int bytes; int nameDay; int nameIndex; };
 
@@ -101,7 +123,7 @@ static void decode(const QByteArray &raw, FileView &fv)
         unsigned char c0 = (unsigned char)raw.at(pos);
         if (c0 == '\n') { fv.wellFormed = false; pos = n; continue; }     // empty records are written with an id byte? (size 0 = just newline) handled below
         if (c0 == 0xc3) mb = true;
-        for (int k = 0; k < 8; ++k) if (pos + len < n && (unsigned char)raw.at(pos + len) != '\n') ++len;
+        for (int k = 0; k < 8; ++k) if (pos + len < n && (unsigned char)raw.at(pos + len) != '\n') ++len;     // (records are at most 2 x VF_SMAX bytes)
         if (pos + len >= n) { fv.wellFormed = false; pos = n; continue; }  // no terminating newline: split or truncated record
         // identify: 'A'+id repeated, or (multi-byte) c3 (a0+id) pairs
         if (!mb) { id = c0 - 'A'; for (int k = 0; k < 8; ++k) if (k < len && (unsigned char)raw.at(pos + k) != c0) fv.wellFormed = false; }
@@ -131,12 +153,14 @@ static void make_sink()
     g_sink = new RotatingFileSink(env_path(QString::fromLatin1(BASE)), g_L, g_N, o);
 }
 
+static bool g_present[MAXREC];
 static void check_directory(int nwritten)
 {
     QStringList names = env_list();
     bool present[MAXREC]; int fileOf[MAXREC];
     for (int i = 0; i < MAXREC; ++i) { present[i] = false; fileOf[i] = -1; }
     int nOurs = 0, nRotated = 0; bool activeExists = false;
+    int rDay[QM_LIST_CAP_OR(8)], rIdx[QM_LIST_CAP_OR(8)], rFirst[QM_LIST_CAP_OR(8)]; bool rGz[QM_LIST_CAP_OR(8)]; int nR = 0;     // rotated files seen: name day, name index, first record
     for (int fi = 0; fi < QM_LIST_CAP_OR(8); ++fi) if (fi < names.size()) {
         QString name = names.at(fi);
         FileView fv; fv.ours = false; fv.active = name == QString::fromLatin1(BASE); fv.gz = false; fv.nameDay = 0; fv.nameIndex = 0;
@@ -145,6 +169,10 @@ static void check_directory(int nwritten)
         ++nOurs; if (rotated) ++nRotated; if (fv.active) activeExists = true;
         QByteArray raw = env_read(name);
         if (fv.gz) {
+#if defined(VF_COMPRESS) && VF_COMPRESS == 0 && (!defined(VF_MENU) || VF_MENU < 3)
+            vf_assert(false, "a compressed file appeared although compression is off");      // (keeps the gunzip reference out of jobs that cannot need it)
+            continue;
+#endif
             bool ok; raw = env_gunzip(raw, &ok);
             if (P(8)) vf_assert(ok, "compressed rotated file is a complete gzip stream with matching CRC-32 and length");
             if (!ok) continue;
@@ -164,6 +192,19 @@ static void check_directory(int nwritten)
             if (rotated) vf_assert(fv.nameDay == g_rec[fv.first].day, "daily rotation: a rotated file's name carries the day its records were written");
         }
         if (P(6) && g_N == 1) vf_assert(!rotated, "file-count limit 1: no rotated file is ever produced");
+        if (P(9) && rotated && fv.count > 0) {
+            for (int q = 0; q < QM_LIST_CAP_OR(8); ++q) if (q == nR) { rDay[q] = fv.nameDay; rIdx[q] = fv.nameIndex; rFirst[q] = fv.first; rGz[q] = fv.gz; }
+            ++nR;
+        }
+    }
+    for (int i = 0; i < MAXREC; ++i) g_present[i] = present[i];
+    if (P(9) && g_N != 1) {
+        // rotated names are never reused: per name day the indices are distinct and increase in rotation order (= record order);
+        // a plain file and its own compressed copy (left by a crash between compression and removal) are the same rotation
+        for (int a = 0; a < QM_LIST_CAP_OR(8); ++a) for (int b = 0; b < QM_LIST_CAP_OR(8); ++b) if (a < nR && b < nR && a != b && rDay[a] == rDay[b]) {
+            const bool twin = rIdx[a] == rIdx[b] && rFirst[a] == rFirst[b] && rGz[a] != rGz[b];
+            if (!twin) vf_assert((rFirst[a] < rFirst[b]) == (rIdx[a] < rIdx[b]) && rIdx[a] != rIdx[b], "within a day the indices of rotated files are unique and increase in rotation order");
+        }
     }
     // history accounting
     int firstPresent = -1; bool gap = false; int missing = 0;
@@ -240,7 +281,7 @@ extern "C" void h_fs_hist()
 
 // ------------------------------------------------------------------------------------------------------------------
 // h_fs_step: the INDUCTIVE form of the file-sink properties.  Instead of a history from the empty directory, the directory
-// the sink finds is arbitrary within a menu: the active file a.l and up to three rotated files with concrete names (menu
+// the sink finds is arbitrary within a menu: the active file a.l and up to two rotated files with concrete names (menu
 // VF_MENU, listed in rotation order = the order in which they were produced), each present or not, each holding a symbolic
 // number of whole records, with symbolic modification times that are non-decreasing in rotation order (TIES INCLUDED) --
 // what earlier runs of the sink can leave behind -- plus foreign files that merely look similar.  A new sink is started on
@@ -257,13 +298,21 @@ extern "C" void h_fs_hist()
 #define VF_DDAY 0          // bit k: the day changes before write k
 #endif
 struct MenuEntry { const char *name; int day; };
+#define NMENU 2
 #if VF_MENU == 0
-static const MenuEntry MENU[3] = { { "a.2024-05-10.1.l", 0 }, { "a.2024-05-10.2.l", 0 }, { "a.2024-05-11.1.l", 1 } };
+static const MenuEntry MENU[NMENU] = { { "a.2024-05-10.1.l", 0 }, { "a.2024-05-10.2.l", 0 } };
 #elif VF_MENU == 1
-static const MenuEntry MENU[3] = { { "a.2024-05-10.8.l", 0 }, { "a.2024-05-10.9.l", 0 }, { "a.2024-05-10.10.l", 0 } };
+static const MenuEntry MENU[NMENU] = { { "a.2024-05-10.9.l", 0 }, { "a.2024-05-10.10.l", 0 } };      // rotation order 9 then 10; name order is the reverse
 #elif VF_MENU == 2
-static const MenuEntry MENU[3] = { { "a.2024-05-10.1.l", 0 }, { "a.2024-05-11.1.l", 1 }, { "a.2024-05-11.2.l", 1 } };
+static const MenuEntry MENU[NMENU] = { { "a.2024-05-10.1.l", 0 }, { "a.2024-05-11.1.l", 1 } };
+#elif VF_MENU == 3
+static const MenuEntry MENU[NMENU] = { { "a.2024-05-10.1.l.gz", 0 }, { "a.2024-05-11.3.l", 1 } };     // a compressed older file (index taken as .gz), a gap in the indices
+#elif VF_MENU == 4
+static const MenuEntry MENU[NMENU] = { { "a.2024-05-10.1.l.gz", 0 }, { "a.2024-05-10.2.l.gz", 0 } };  // compressed leftovers of the day (e.g. from a run with compression on)
+#elif VF_MENU == 5
+static const MenuEntry MENU[NMENU] = { { "a.2024-05-10.9.l.gz", 0 }, { "a.2024-05-10.10.l.gz", 0 } }; // compressed, two-digit index
 #endif
+#define MENU_GZ(f) ((VF_MENU == 3 && (f) == 0) || VF_MENU == 4 || VF_MENU == 5)
 static const char *const FOREIGN[2] = { "a.2024-05-10.1.l.bak", "b.2024-05-10.1.l" };
 
 static QByteArray rec_bytes(int id, int size)
@@ -280,7 +329,8 @@ static QByteArray rec_bytes(int id, int size)
 #else
 #define VF_CUT_AT(n) do { } while (0)
 #endif
-extern "C" void h_fs_step()
+// the symbolic pre-state shared by h_fs_step and h_fs_crash; returns the number of records it holds
+static int fs_prestate(bool *foreign, int *pLastMs)
 {
     env_init();
     g_L = vf_range(0, VF_LMAX); g_N = vf_range(-1, 4);
@@ -298,21 +348,25 @@ extern "C" void h_fs_step()
     // each write; rotated files were last written on the day in their name), so that date strings and the expressions built
     // from them are concrete text; everything else (presence, record counts and sizes, times within the day, ties) is symbolic.
     int nrec = 0; int lastDay = 0, lastMs = 0; int nfiles = 0;
-    for (int f = 0; f < 4; ++f) {
-        const bool active = f == 3;
+    for (int f = 0; f < NMENU + 1; ++f) {
+        const bool active = f == NMENU;
 #ifdef VF_NOACTIVE
         bool exists = active ? false : vf_nondet_bool();
 #else
         bool exists = active ? true : vf_nondet_bool();    // a sink that ran before leaves an active file (possibly empty); VF_NOACTIVE jobs: none
 #endif
+#ifdef VF_NMENU
+        if (!active && f >= VF_NMENU) exists = false;      // jobs that use only the first VF_NMENU menu files
+#endif
         int cnt = vf_range(0, VF_PRE);                 // records in this file
-        const int fday = active ? VF_ADAY : MENU[f < 3 ? f : 0].day;
+        const int fday = active ? VF_ADAY : MENU[f < NMENU ? f : 0].day;
         int fms = vf_range(0, 2);                      // modification time within the day
         int sz0 = vf_range(1, VF_SMAX), sz1 = vf_range(1, VF_SMAX);
         if (!exists) cnt = 0;
         QByteArray content; content = QByteArray("");
         if (exists) {
             vf_assume(active || cnt >= 1);               // only non-empty files are ever rotated
+            if (P(6) && g_N == 1) vf_assume(active);     // C06 pre-state: with a file-count limit of 1 no rotated file exists
             vf_assume(cnt <= 2 && nrec + cnt <= VF_PRE);
             vf_assume(fday > lastDay || (fday == lastDay && fms >= lastMs));      // times follow rotation order, ties allowed
             for (int k = 0; k < 2; ++k) if (k < cnt) {
@@ -324,19 +378,26 @@ extern "C" void h_fs_step()
             if (g_L > 0 && g_N != 1) vf_assume(content.size() <= g_L || cnt == 1);     // C07 pre-state
             lastDay = fday; lastMs = fms; ++nfiles;
         }
-        env_put_file_slot(active ? 0 : f + 1, exists, QString::fromLatin1(active ? BASE : MENU[f < 3 ? f : 0].name), content, fday, fms);
+                if (!active && MENU_GZ(f)) content = ref_gzip(content);      // a compressed menu file holds a complete gzip stream of its records
+        env_put_file_slot(active ? 0 : f + 1, exists, QString::fromLatin1(active ? BASE : MENU[f < NMENU ? f : 0].name), content, fday, fms);
     }
     if (g_N >= 2) vf_assume(nfiles <= g_N);                 // C06 pre-state: the retention bound holds before the write
-    bool foreign[2] = { false, false };
+    foreign[0] = false; foreign[1] = false;
 #ifdef VF_FOREIGN
-    for (int k = 0; k < 2; ++k) { foreign[k] = vf_nondet_bool(); env_put_file_slot(4 + k, foreign[k], QString::fromLatin1(FOREIGN[k]), QByteArray("x\n"), 0, 0); }
+    for (int k = 0; k < VF_FOREIGN && k < 2; ++k) { foreign[k] = vf_nondet_bool(); env_put_file_slot(NMENU + 1 + k, foreign[k], QString::fromLatin1(FOREIGN[k]), QByteArray("x\n"), 0, 0); }
 #endif
-    const int npre = nrec;
+    vf_assume(lastDay <= VF_ADAY);
+    *pLastMs = lastDay < VF_ADAY ? 0 : lastMs;
+    return nrec;
+}
+
+extern "C" void h_fs_step()
+{
+    bool foreign[2]; int lastMs = 0;
+    const int npre = fs_prestate(foreign, &lastMs);
     VF_CUT_AT(1);
     // ---- a new sink on that directory, VF_OPS writes
     int day = VF_ADAY, ms = lastMs;          // "now": not before the active file's (or any file's) last write
-    vf_assume(lastDay <= VF_ADAY);
-    if (lastDay < VF_ADAY) ms = 0;
     env_clock(day, ms);
     make_sink();
     VF_CUT_AT(2);
@@ -345,11 +406,11 @@ extern "C" void h_fs_step()
         int tick = vf_range(0, 2); const int dday = (VF_DDAY >> op) & 1;
         ms += tick; day += dday; if (dday) ms = 0;
         env_clock(day, ms);
-        int size = vf_range(1, VF_SMAX);
+        int size = vf_range(1, VF_SMAX); bool mb = vf_nondet_bool();       // mb: characters that take two bytes in UTF-8
         RecInfo &ri = g_rec[nwritten];
-        ri.size = size; ri.mb = false; ri.day = day; ri.written = true;
+        ri.size = size; ri.mb = mb; ri.day = day; ri.written = true;
         QString text = QStringLiteral("");
-        for (int i = 0; i < VF_SMAX; ++i) if (i < size) text.append(QChar(ushort('A' + nwritten)));
+        for (int i = 0; i < VF_SMAX; ++i) if (i < size) text.append(QChar(ushort(mb ? 0xe0 + nwritten : 'A' + nwritten)));
         LogMessage msg(QtInfoMsg, g_ctx, text);
 #ifdef VF_PROBE
         // debugging aid: run one private piece of the sink on the symbolic pre-state instead of send() (cost localisation)
@@ -379,6 +440,73 @@ extern "C" void h_fs_step()
         VF_CUT_AT(4);
         for (int k = 0; k < 2; ++k) if (foreign[k] && P(6))
             vf_assert(env_read(QString::fromLatin1(FOREIGN[k])) == QByteArray("x\n"), "files that do not follow the rotated-name scheme are never touched");
+    }
+    vf_witness();
+}
+
+// ------------------------------------------------------------------------------------------------------------------
+// h_fs_crash (C10): the pre-state of h_fs_step, a new sink, one write during which EITHER the process dies at a symbolic
+// operation of the file-system model (everything from that operation on has no effect; what remains is the durable state)
+// OR one rename / remove / open(WriteOnly) fails.  Afterwards every record that was in the directory before must still be
+// recoverable from an intact file; then a sink is started again, writes another record, and the same must hold plus the
+// new record.  Retention is switched off in these jobs (N <= 1), so no record may legitimately disappear.
+#ifndef VF_FAULT
+#define VF_FAULT 0          // 0: crash at operation k, 1: operation k fails
+#endif
+extern "C" void h_fs_crash()
+{
+    bool foreign[2]; int lastMs = 0;
+    const int npre = fs_prestate(foreign, &lastMs);
+    vf_assume(g_N <= 1);
+    int day = VF_ADAY, ms = lastMs;
+    env_clock(day, ms);
+    make_sink();
+    int nwritten = npre;
+    // the write during which it happens
+    {
+        int tick = vf_range(0, 2); const int dday = VF_DDAY & 1;
+        ms += tick; day += dday; if (dday) ms = 0;
+        env_clock(day, ms);
+        int size = vf_range(1, VF_SMAX);
+        RecInfo &ri = g_rec[nwritten];
+        ri.size = size; ri.mb = false; ri.day = day; ri.written = true;
+        QString text = QStringLiteral("");
+        for (int i = 0; i < VF_SMAX; ++i) if (i < size) text.append(QChar(ushort('A' + nwritten)));
+        LogMessage msg(QtInfoMsg, g_ctx, text);
+        int k = vf_range(0, 14);
+        if (VF_FAULT) env_fail_at(env_ops() + k); else env_crash_at(env_ops() + k);
+        g_sink->send(msg);
+        g_sink->flush();
+        env_after_op();
+        ++nwritten;
+        check_directory(nwritten);
+        for (int r = 0; r < MAXREC; ++r) if (r < npre)
+            vf_assert(g_present[r], "every record that had reached a file before the crash / failure is still recoverable from an intact file");
+        // (whether the record written DURING a failure survives is not part of the statement: if re-opening the log file itself
+        //  fails there is nowhere to write it; a first version of this oracle demanded it and was corrected)
+    }
+    // a sink started afterwards
+    env_crash_at(1 << 30); env_fail_at(-1);
+    if (VF_FAULT) delete g_sink;          // (after a crash the old process is gone: its destructor never runs)
+    {
+        int tick = vf_range(0, 2); const int dday = (VF_DDAY >> 1) & 1;
+        ms += tick; day += dday; if (dday) ms = 0;
+        env_clock(day, ms);
+        make_sink();
+        int size = vf_range(1, VF_SMAX);
+        RecInfo &ri = g_rec[nwritten];
+        ri.size = size; ri.mb = false; ri.day = day; ri.written = true;
+        QString text = QStringLiteral("");
+        for (int i = 0; i < VF_SMAX; ++i) if (i < size) text.append(QChar(ushort('A' + nwritten)));
+        LogMessage msg(QtInfoMsg, g_ctx, text);
+        g_sink->send(msg);
+        g_sink->flush();
+        env_after_op();
+        ++nwritten;
+        check_directory(nwritten);
+        for (int r = 0; r < MAXREC; ++r) if (r < npre)
+            vf_assert(g_present[r], "a sink started after the crash / failure does not overwrite or delete earlier records");
+        vf_assert(g_present[nwritten - 1], "a sink started after the crash / failure continues logging");
     }
     vf_witness();
 }
